@@ -78,6 +78,18 @@ func TestSweep(t *testing.T) {
 			}
 		}
 	}
+	// readers only, a buffer that ends in a partial frame with capacity behind it: every read-only entry point,
+	// the striped read of everything (each channel as far as it has samples) among them
+	for ti, tn := range Types {
+		for _, sh := range [][3]int{{2, 6, 1}, {3, 4, 1}, {3, 7, 2}, {5, 3, 3}} {
+			c := &Case{T: tn, C: sh[0], F: sh[1], RO: sh[1], Partial: sh[2], Bounds: []int{sh[1]}, Procs: []int{2, 8, 16}[ti%3], Repeat: rep, Pooled: ti%2 == 1, Frac: ti%3 == 0}
+			for r := 0; r < 6; r++ {
+				c.Readers = append(c.Readers, []int{14, (r + 1) % nReadOps, 14, 9, 14, (r*3 + 4) % nReadOps, 14})
+				c.Yield = append(c.Yield, []int{0, 0x55, 0xaa, 0x0f}[r%4])
+			}
+			Oracle.One(t, env, rec, "sweep", c)
+		}
+	}
 	// the shared buffer got its storage from a growing Append and nobody has asked for its capacity or sliced it yet
 	for ti, tn := range Types {
 		for _, sh := range [][3]int{{3, 5, 0}, {3, 5, 1}, {5, 3, 2}, {2, 9, 1}, {7, 2, 0}} {
